@@ -12,6 +12,7 @@ import PyttbModel.Lemmas.MLMttkrpW
 import PyttbModel.Lemmas.MLSparseMttkrp
 import PyttbModel.Lemmas.MLDenseContract
 import PyttbModel.Lemmas.MLSumFull
+import PyttbModel.Props.C02KT
 namespace Pyttb
 
 variable {α : Type}
